@@ -86,6 +86,25 @@ func Digest(name string) [32]byte {
 	return d
 }
 
+// Digests returns n arbitrary digests.
+func Digests(name string, n int) [][32]byte {
+	out := make([][32]byte, n)
+	for i := range out {
+		out[i] = Digest(name)
+	}
+	return out
+}
+
+// DigestsUpTo returns a slice of arbitrary length 0..max of arbitrary digests.
+func DigestsUpTo(name string, max int) [][32]byte {
+	out := Digests(name, max)
+	n := int(num(name + ".len"))
+	if n < 0 || n > max {
+		panic(assumeFailed{})
+	}
+	return out[:n:n]
+}
+
 // Assume restricts the inputs under consideration; it must precede the code it constrains.
 func Assume(c bool) {
 	if !c {
